@@ -251,17 +251,18 @@ def has_pad(orig_js, ser_js):
     return tgt_end and len(ser_js) > 0 and ser_js[-1] == ins("core.SetInstruction", reg(C, 15), imm(1337))
 
 
-def oracle_compare(subs_js, nq, script, state, debug=False):
+def oracle_compare(subs_js, nq, script, state, debug=False, given=None):
     """Original (vanilla semantics) vs transpiled-and-serialised (NV semantics).
     Returns None when they agree, else a description. Programs on which the ORIGINAL faults are
-    skipped (returns "skip")."""
+    skipped (returns "skip"). `given`: transpilation results to judge instead of transpiling here
+    (one {"ok","ser"} / {"err"} dict per subroutine)."""
     a = run_subroutines(subs_js, nq, script, state, VANILLA_CLASSES)
     if a["err"] is not None:
         return "skip"
     tsubs = []
     padded = False
-    for js in subs_js:
-        t = real_transpile(js, debug=debug)
+    for k_sub, js in enumerate(subs_js):
+        t = real_transpile(js, debug=debug) if given is None else given[k_sub]
         if "err" in t:
             return {"what": "transpiler raises " + t["err"] + " on a program that runs", "stage": "transpile"}
         tsubs.append(t["ser"])
@@ -290,6 +291,123 @@ def oracle_compare(subs_js, nq, script, state, debug=False):
         return {"what": "final quantum state differs (beyond a global phase)", "stage": "state",
                 "overlap": float(abs(np.vdot(a["state"], b["state"])))}
     return None
+
+
+# ---------------------------------------------------------------- transpiler-object histories
+
+HELPERS = ["swap", "get_unused_register", "get_reg_value", "_map_single_gate", "_handle_single_qubit_gate",
+           "_map_cnot_electron_carbon", "_map_cnot_carbon_electron", "_map_cnot_carbon_carbon",
+           "_map_cphase_electron_carbon", "_map_cphase_carbon_carbon", "_move_electron_carbon",
+           "_move_carbon_electron"]
+
+
+def _result_of(sub):
+    res = [instr_to_json(i) for i in sub.instructions]
+    return {"ok": res, "ser": [j for j in res if not j["c"].startswith(DEBUG_PREFIX)]}
+
+
+class _Timeout(Exception):
+    pass
+
+
+def _on_alarm(signum, frame):
+    raise _Timeout()
+
+
+def _call(tr, hw):
+    """one transpile() call under a hardware setting: result dict. A call that does not return within
+    half a second (a pass iterating over a list it is appending to) is reported as "Timeout"."""
+    import signal
+    prev = settings.get_is_using_hardware()
+    settings.set_is_using_hardware(hw)
+    old = signal.signal(signal.SIGALRM, _on_alarm)
+    signal.setitimer(signal.ITIMER_REAL, 0.5)
+    try:
+        return _result_of(tr.transpile())
+    except _Timeout:
+        return {"err": "Timeout"}
+    except Exception as e:
+        return {"err": type(e).__name__}
+    finally:
+        signal.setitimer(signal.ITIMER_REAL, 0)
+        signal.signal(signal.SIGALRM, old)
+        settings.set_is_using_hardware(prev)
+
+
+def _call_helper(tr, name, rng):
+    """call one public / semi-public helper of the transpiler object on throw-away operands"""
+    ra = op.Register(RegisterName.Q, rng.randrange(16))
+    rb = op.Register(RegisterName.Q, rng.randrange(16))
+    try:
+        if name == "swap":
+            tr.swap(None, ra, rb)
+        elif name == "get_unused_register":
+            tr.get_unused_register()
+        elif name == "get_reg_value":
+            tr.get_reg_value(ra)
+        elif name in ("_map_single_gate", "_handle_single_qubit_gate"):
+            getattr(tr, name)(vanilla.GateHInstruction(reg=ra))
+        elif "cnot" in name:
+            getattr(tr, name)(vanilla.CnotInstruction(reg0=ra, reg1=rb))
+        elif "cphase" in name:
+            getattr(tr, name)(vanilla.CphaseInstruction(reg0=ra, reg1=rb))
+        else:
+            getattr(tr, name)(vanilla.MovInstruction(reg0=ra, reg1=rb))
+    except Exception:
+        pass  # e.g. KeyError of get_reg_value: the call itself is all that matters
+
+
+def run_history(kind, js, debug, rng, fail_pos=None, names=None):
+    """Use ONE NVSubroutineTranspiler object (or one Subroutine object) in a way other than "fresh object,
+    one call". Returns {"final": result of the last call, "ref": the vanilla program a fresh object would
+    be given for that call, "ref_hw": hardware setting of that call, "desc": the history}.
+    kinds: "helpers"   random helper calls, then transpile()
+           "retry-hw"  transpile() under the hardware setting (raises at `fail_pos`), then again without
+           "retry-fix" transpile() raises at `fail_pos`; the caller replaces that instruction; again
+           "twice"     transpile() twice on the same object (second input = first output)
+           "two-objs"  the same Subroutine object given to two transpiler objects one after the other"""
+    instrs = [instr_from_json(j) for j in js]
+    sub = Subroutine(instructions=instrs, app_id=0)
+    tr = NVSubroutineTranspiler(sub, debug=debug)
+    if kind == "helpers":
+        names = names or [rng.choice(HELPERS) for _ in range(rng.randrange(1, 5))]
+        for n in names:
+            _call_helper(tr, n, rng)
+        return {"final": _call(tr, False), "ref": js, "ref_hw": False, "desc": {"helpers": names}}
+    if kind == "retry-hw":
+        first = _call(tr, True)
+        return {"final": _call(tr, False), "ref": js, "ref_hw": False,
+                "desc": {"first": first.get("err", "ok"), "fail_pos": fail_pos}}
+    if kind == "retry-fix":
+        first = _call(tr, False)
+        fix = ins("core.SetInstruction", reg(R, 5), imm(1))
+        sub.instructions[fail_pos] = instr_from_json(fix)
+        ref = list(js)
+        ref[fail_pos] = fix
+        return {"final": _call(tr, False), "ref": ref, "ref_hw": False,
+                "desc": {"first": first.get("err", "ok"), "fail_pos": fail_pos}}
+    if kind == "twice":
+        first = _call(tr, False)
+        if "err" in first:
+            return None
+        return {"final": _call(tr, False), "ref": first["ok"], "ref_hw": False, "desc": {"first": "ok"},
+                "first": first}
+    if kind == "two-objs":
+        first = _call(tr, False)
+        if "err" in first:
+            return None
+        tr2 = NVSubroutineTranspiler(sub, debug=debug)
+        return {"final": _call(tr2, False), "ref": first["ok"], "ref_hw": False, "desc": {"first": "ok"},
+                "first": first}
+    raise ValueError(kind)
+
+
+def fresh_result(js, debug, hw):
+    """what a fresh object gives on a fresh copy (the reference every history is compared with); inputs
+    that already contain NV instructions are allowed (second call of "twice")"""
+    instrs = [instr_from_json(j) for j in js]
+    tr = NVSubroutineTranspiler(Subroutine(instructions=instrs, app_id=0), debug=debug)
+    return _call(tr, hw)
 
 
 # ---------------------------------------------------------------- generators
@@ -537,10 +655,26 @@ class ProgGen:
         for _ in range(self.rng.choice([1, 1, 2, 3])):
             self.stmt(depth)
 
-    def program(self, size):
+    def program(self, size, fail=None):
+        """`fail`: None | "hw" | "mov-cc": put, at a random top-level position that no carbon-carbon
+        gate precedes, an instruction on which the pass raises (a rotation with denominator 5 under the
+        hardware setting; a carbon->carbon mov). `self.fail_pos` = its index (None if no place was found)."""
         self.prologue()
-        for _ in range(size):
-            self.stmt(2)
+        self.fail_pos = None
+        where = self.rng.randrange(size + 1) if fail else None
+        for k in range(size + 1):
+            if fail and k == where and not any(f in self.features for f in ("cc", "target-is-cc")):
+                if fail == "hw":
+                    self.emit("core.SetInstruction", reg(Q, 15), imm(self.rng.randrange(self.nq)))
+                    self.fail_pos = len([i for i in self.items if not isinstance(i, tuple)])
+                    self.emit(self.rng.choice(ROTS), reg(Q, 15), imm(1 + self.rng.randrange(31)), imm(5))
+                else:
+                    self.emit("core.SetInstruction", reg(Q, 14), imm(1))
+                    self.emit("core.SetInstruction", reg(Q, 15), imm(2))
+                    self.fail_pos = len([i for i in self.items if not isinstance(i, tuple)])
+                    self.emit("vanilla.MovInstruction", reg(Q, 14), reg(Q, 15))
+            if k < size:
+                self.stmt(2)
         js = self.resolve()
         n = len(js)
         for j in js:
